@@ -100,3 +100,45 @@ CONTRACTS['distance_bin'] = Contract(
              ('infinite-only-when-no-walk', "forall(lambda x, y: implies(And(inr(x, n0), inr(y, n0), x != y, result()[x, y] == INF), sdist(G, x, y) == 0))"),
              ('diagonal-zero', "forall(lambda x: implies(inr(x, n0), result()[x, x] == 0))"),
              ('argument-untouched', "unchanged('G')")])
+
+
+# ---- navigation_wu: ONE greedy navigation (fragment: from `curr_paths = [curr_node]` to the end of the walk loop) -------------------------
+# For an arbitrary source (curr_node at entry) and target: the recorded node list is a walk from the source along existing
+# connections; on success it ends at the target and the three reported lengths are its hop count, its summed connection
+# length and its summed distance; on failure all three are infinite.  ASSUMED at entry (set by the enclosing loops, not part of
+# the fragment): curr_node, target are distinct nodes, last_node == curr_node.  The bookkeeping of the outer loops (matrices
+# PL_*, the dict of paths, the success ratio) is bounded only.
+def _setup_nav(eng, st):
+    n = z3.Int('n')
+    st.pc.append(n >= 1)
+    st.env['n'] = n
+    st.ghost['n0'] = n
+    st.env['L'] = alloc(st, 2, z3.Const('L0', A2R), (n, n), REAL)
+    st.env['D'] = alloc(st, 2, z3.Const('D0', A2R), (n, n), REAL)
+    for nm in ('curr_node', 'last_node', 'target'):
+        st.env[nm] = z3.Int(nm + '0')
+    st.ghost['src'] = st.env['curr_node']
+    st.env['max_hops'] = Opaque('maybe_none', isnone=z3.Bool('max_hops_is_none'), val=z3.Int('max_hops'), name='max_hops')
+
+
+_NAV_WALK = ("And(len(curr_paths) >= 1, curr_paths[0] == src, forall(lambda k: implies(And(k >= 0, k < len(curr_paths)), inr(curr_paths[k], n0))), "
+             "forall(lambda k: implies(And(k >= 0, k < len(curr_paths) - 1), L[curr_paths[k], curr_paths[k + 1]] != 0)))")
+_NAV_INV = [
+    ('PATH-is-a-walk-from-the-source-along-existing-connections', _NAV_WALK),
+    ('PATH-ends-at-the-current-node', "And(curr_paths[len(curr_paths) - 1] == curr_node, inr(curr_node, n0), inr(target, n0))"),
+    ('LENGTHS-are-those-of-the-path', "And(pl_bin == len(curr_paths) - 1, pl_wei == pathsum(L, curr_paths), pl_dis == pathsum(D, curr_paths))"),
+    ('FRAME', "And(n == n0, unchanged('L'), unchanged('D'))"),
+]
+CONTRACTS['navigation_wu#walk'] = Contract(
+    MOD, 'navigation_wu', ['L', 'D', 'max_hops'], setup=_setup_nav, key='navigation_wu#walk',
+    fragment=('curr_paths = [curr_node]', 'while curr_node != target'),
+    requires=[('source-and-target-are-distinct-nodes', "And(inr(curr_node, n0), inr(target, n0), curr_node != target, last_node == curr_node)")],
+    loops={'while curr_node != target': {'name': 'walk', 'inv': _NAV_INV}},
+    ghost_after={'pl_dis = 0': "assume(lemma_pathsum(L, curr_paths, 0), lemma_pathsum(D, curr_paths, 0))",
+                 'curr_paths.append(*)': "assume(lemma_pathsum_append(L), lemma_pathsum_append(D))"},
+    ensures=[
+        ('path-is-a-walk-from-the-source-along-existing-connections', _NAV_WALK),
+        ('success-reaches-the-target-with-the-reported-lengths-failure-reports-infinity',
+         "Or(And(pl_bin == INF, pl_wei == INF, pl_dis == INF), "
+         "And(curr_paths[len(curr_paths) - 1] == target, pl_bin == len(curr_paths) - 1, pl_wei == pathsum(L, curr_paths), pl_dis == pathsum(D, curr_paths)))"),
+    ])
